@@ -5,14 +5,15 @@
 package patch
 
 //@ func (f *File) Apply(filename, src) (out, err)
-//@   requires f.prog != nil
-//@   requires forall j int {f.prog.Changes[j]} :: 0 <= j && j < len(f.prog.Changes) ==> f.prog.Changes[j] != nil
-//@   assigns group(ast), matchCount, replFail
+//@   requires wfProg(f.prog)
+//@   assigns group(ast), matchCount, replFail, sitesReplaced
 //@   ensures [C06] no-match-returns-input: matchCount == old(matchCount) && replFail == old(replFail) ==> (err == nil ==> out == src)
 //@   ensures [C07] output-parses: err == nil && out != src ==> Parses(string(out))
 //@   ensures [C12,C14] same-pipeline-as-cli: err == nil && out != src ==> exists n int :: n != 0 && string(out) == impProc(filename, fmtNode(n))
 //@   ensures [C09,C16] failed-replace-reported: replFail > old(replFail) ==> (err != nil && out == nil)
 //@   loop 0
+//@     invariant astOK(base)
+//@     invariant [C09] later-changes-see-the-rewritten-file: fout == nil || fout == base
 //@     invariant matchCount >= old(matchCount) && replFail >= old(replFail)
 //@     invariant matchCount == old(matchCount) ==> fout == nil
 //@     invariant replFail == old(replFail) ==> retErr == nil
@@ -21,9 +22,7 @@ package patch
 // Comments are only ever removed, and only those lying entirely inside a changed interval; the lines they
 // occupied are merged (C17). No comment is added, moved or duplicated here.
 //@ func cleanupFilePos(tfile, cl, comments)
-//@   requires tfile != nil
-//@   requires typing: forall g int {comments[g]} :: 0 <= g && g < len(comments) ==> comments[g] != nil && forall c int {comments[g].List[c]} :: 0 <= c && c < len(comments[g].List) ==> comments[g].List[c] != nil
-//@   assigns group(ast)
+//@   assigns allof("F.S_ast_CommentGroup.List")
 //@   loop 0
 //@     invariant linesToDelete != nil
 //@   loop 1
